@@ -60,6 +60,18 @@ func genSimpleGroup(g *vlib.G) {
 			genSimple(g, smallCfg(k, 4, []float64{1}, false, "U4 w{1}"), 0, heavy)
 		}
 	}
+	// end point node VALUES: user nodes with different payloads and the container's
+	// own node type mixed in one edge (round 7)
+	for _, k := range kinds {
+		cfg := smallCfg(k, 2, []float64{1}, false, "U2 w{1} mixed node values")
+		cfg.mixed = true
+		genSimple(g, cfg, 0, heavy)
+		if g.Thorough() {
+			cfg := smallCfg(k, 3, []float64{1}, false, "U3 w{1} mixed node values")
+			cfg.mixed = true
+			genSimple(g, cfg, 0, heavy)
+		}
+	}
 	// constructor parameters NewWeighted*Graph(self, absent): all 6x6 value
 	// combinations on U={0,1} (quick) / U={0,1,2} (thorough)
 	pv := paramValues()
@@ -139,6 +151,17 @@ func genMultiGroup(g *vlib.G) {
 			genMulti(g, star(k), 0, 0, heavy)
 		}
 	}
+	// end point node values mixed in one line (round 7); self loops are legal here
+	for _, k := range kinds {
+		cfg := multiCfgOf(k, "U2 pairs{00,01} L{0} mixed node values", u2, [][2]int64{{0, 0}, {0, 1}}, l1, w1)
+		cfg.mixed = true
+		genMulti(g, cfg, 0, 0, heavy)
+		if g.Thorough() {
+			cfg := multiCfgOf(k, "U2 all pairs L{0} mixed node values", u2, allPairs(u2), l1, w1)
+			cfg.mixed = true
+			genMulti(g, cfg, 0, 0, heavy)
+		}
+	}
 	// the EdgeWeightFunc parameter of the weighted multigraphs (default nil = sum)
 	for _, k := range []mkind{mWeightedDirected, mWeightedUndirected} {
 		cfg := multiCfgOf(k, "U2 pairs{01,10} L{0,1} w{1,2} EdgeWeightFunc=max", u2, [][2]int64{{0, 1}, {1, 0}}, l2, []float64{1, 2})
@@ -170,6 +193,23 @@ func genMatrixGroup(g *vlib.G) {
 	for _, k := range kinds {
 		genMatrix(g, matrixCfgOf(k, "n3 absent=Inf w{1,2,Inf}", 3, false, inf, 0, inf, []float64{1, 2, inf}, true), 0, heavy)
 		genMatrix(g, matrixCfgOf(k, "n3 From absent=0 init=1 w{1}", 3, true, 1, -7, 0, []float64{1}, true), 0, heavy)
+	}
+	// end point node values mixed in one edge (round 7): plain and From constructors
+	for _, k := range kinds {
+		for _, from := range []bool{false, true} {
+			name := "n2 absent=0 unit weight mixed node values"
+			if from {
+				name = "n2 From absent=0 unit weight mixed node values"
+			}
+			cfg := matrixCfgOf(k, name, 2, from, 0, -7, 0, nil, true)
+			cfg.mixed = true
+			genMatrix(g, cfg, 0, heavy)
+		}
+		if g.Thorough() {
+			cfg := matrixCfgOf(k, "n3 From absent=0 unit weight mixed node values", 3, true, 0, -7, 0, nil, true)
+			cfg.mixed = true
+			genMatrix(g, cfg, 0, heavy)
+		}
 	}
 	// constructor parameters (self, absent, init): every absent value with n=3
 	// (self = 0, or 1 where absent = 0), the full self x absent product with n=2
